@@ -104,8 +104,116 @@ func Add(p, q Point) Point {
 	return Point{X: x, Y: y}
 }
 
-// Mul computes k*p (k is reduced mod N).
+// jac is a point in Jacobian coordinates (x = X/Z^2, y = Y/Z^3); Z = 0 is infinity.
+type jac struct{ X, Y, Z *big.Int }
+
+func jacInf() jac { return jac{new(big.Int), big.NewInt(1), new(big.Int)} }
+
+func (j jac) double() jac {
+	if j.Z.Sign() == 0 || j.Y.Sign() == 0 {
+		return jacInf()
+	}
+	A := new(big.Int).Mul(j.X, j.X)
+	A.Mod(A, P)
+	B := new(big.Int).Mul(j.Y, j.Y)
+	B.Mod(B, P)
+	C := new(big.Int).Mul(B, B)
+	C.Mod(C, P)
+	D := new(big.Int).Add(j.X, B)
+	D.Mul(D, D)
+	D.Sub(D, A)
+	D.Sub(D, C)
+	D.Lsh(D, 1)
+	D.Mod(D, P)
+	E := new(big.Int).Mul(A, big.NewInt(3))
+	F := new(big.Int).Mul(E, E)
+	X3 := new(big.Int).Sub(F, new(big.Int).Lsh(D, 1))
+	X3.Mod(X3, P)
+	Y3 := new(big.Int).Sub(D, X3)
+	Y3.Mul(Y3, E)
+	Y3.Sub(Y3, new(big.Int).Lsh(C, 3))
+	Y3.Mod(Y3, P)
+	Z3 := new(big.Int).Mul(j.Y, j.Z)
+	Z3.Lsh(Z3, 1)
+	Z3.Mod(Z3, P)
+	return jac{X3, Y3, Z3}
+}
+
+// addAffine adds the affine point q (not infinity) to j.
+func (j jac) addAffine(q Point) jac {
+	if j.Z.Sign() == 0 {
+		return jac{new(big.Int).Set(q.X), new(big.Int).Set(q.Y), big.NewInt(1)}
+	}
+	Z1Z1 := new(big.Int).Mul(j.Z, j.Z)
+	Z1Z1.Mod(Z1Z1, P)
+	U2 := new(big.Int).Mul(q.X, Z1Z1)
+	U2.Mod(U2, P)
+	S2 := new(big.Int).Mul(q.Y, j.Z)
+	S2.Mul(S2, Z1Z1)
+	S2.Mod(S2, P)
+	H := new(big.Int).Sub(U2, j.X)
+	H.Mod(H, P)
+	R := new(big.Int).Sub(S2, j.Y)
+	R.Mod(R, P)
+	if H.Sign() == 0 {
+		if R.Sign() == 0 {
+			return j.double()
+		}
+		return jacInf()
+	}
+	HH := new(big.Int).Mul(H, H)
+	HH.Mod(HH, P)
+	HHH := new(big.Int).Mul(HH, H)
+	HHH.Mod(HHH, P)
+	V := new(big.Int).Mul(j.X, HH)
+	V.Mod(V, P)
+	X3 := new(big.Int).Mul(R, R)
+	X3.Sub(X3, HHH)
+	X3.Sub(X3, new(big.Int).Lsh(V, 1))
+	X3.Mod(X3, P)
+	Y3 := new(big.Int).Sub(V, X3)
+	Y3.Mul(Y3, R)
+	Y3.Sub(Y3, new(big.Int).Mul(j.Y, HHH))
+	Y3.Mod(Y3, P)
+	Z3 := new(big.Int).Mul(j.Z, H)
+	Z3.Mod(Z3, P)
+	return jac{X3, Y3, Z3}
+}
+
+func (j jac) affine() Point {
+	if j.Z.Sign() == 0 {
+		return Infinity
+	}
+	zi := new(big.Int).ModInverse(j.Z, P)
+	zi2 := new(big.Int).Mul(zi, zi)
+	zi2.Mod(zi2, P)
+	x := new(big.Int).Mul(j.X, zi2)
+	x.Mod(x, P)
+	y := new(big.Int).Mul(j.Y, zi2)
+	y.Mul(y, zi)
+	y.Mod(y, P)
+	return Point{X: x, Y: y}
+}
+
+// Mul computes k*p (k is reduced mod N): left-to-right double-and-add in Jacobian
+// coordinates (one modular inversion at the end).
 func Mul(k *big.Int, p Point) Point {
+	kk := new(big.Int).Mod(k, N)
+	if p.Inf || kk.Sign() == 0 {
+		return Infinity
+	}
+	acc := jacInf()
+	for i := kk.BitLen() - 1; i >= 0; i-- {
+		acc = acc.double()
+		if kk.Bit(i) == 1 {
+			acc = acc.addAffine(p)
+		}
+	}
+	return acc.affine()
+}
+
+// MulSlow is the plain affine double-and-add (kept as a cross-check of Mul).
+func MulSlow(k *big.Int, p Point) Point {
 	kk := new(big.Int).Mod(k, N)
 	res := Infinity
 	add := p
